@@ -75,6 +75,8 @@ func (c *FnCtx) eval(env *SpecEnv, e *Expr) (Val, error) {
 				o.vars[k] = v // values (results, bound variables) are state-independent
 			}
 		}
+		// locals are resolved at the same program point; memory-resident ones read the old heap
+		o.frame, o.at, o.loop = env.frame, env.at, env.loop
 		return c.eval(o, e.Args[0])
 	case "un":
 		x, err := c.eval(env, e.Args[0])
@@ -207,7 +209,7 @@ func (c *FnCtx) evalIdent(env *SpecEnv, name string) (Val, error) {
 		}
 	}
 	// local variable at the program point
-	if !env.isOld && env.frame != nil && env.at != nil {
+	if env.frame != nil && env.at != nil {
 		if v, ok := c.resolveLocal(env, name); ok {
 			return v, nil
 		}
@@ -540,6 +542,15 @@ func (c *FnCtx) evalCall(env *SpecEnv, e *Expr) (Val, error) {
 		sub := env.child()
 		sub.heap = env.entryHeap
 		return c.eval(sub, e.Args[0])
+	case "sent":
+		// sent(ch): number of messages sent on channel ch so far (ghost)
+		if err := evalArgs(); err != nil {
+			return Val{}, err
+		}
+		if len(args) != 1 {
+			return Val{}, fmt.Errorf("sent(ch) takes one argument")
+		}
+		return mathInt(sel(c.heapGet(env.heap, arrName("S", "sent", "", "Int")), args[0].S)), nil
 	case "len":
 		if err := evalArgs(); err != nil {
 			return Val{}, err
